@@ -516,7 +516,7 @@ func (api *modAPI[T, PT]) runCommon(r *mon.Run, nBin, nUn, nSel, nDec int) {
 		// mutating the returned slice must not affect the element
 		enc := ea.Bytes()
 		for j := range enc {
-			enc[j] ^= 0xff
+			enc[j] += 0xfd
 		}
 		if enc2 := ea.Bytes(); !bytes.Equal(enc2, b32(a)) {
 			w.Fail(api.name+"/Bytes:alias", "mutating the slice returned by Bytes() changed the element", "a", hb(a))
